@@ -392,6 +392,8 @@ class Engine:
         if isinstance(v, Conc):
             c = v.v
             if ty is None:
+                if type(c).__name__ == "EnumMember":
+                    return zint(int(c.value))
                 if isinstance(c, bool):
                     return z3.BoolVal(c)
                 if isinstance(c, int):
@@ -401,6 +403,8 @@ class Engine:
                 raise Unsupported("term of concrete %r" % (c,))
             if ty == INT and isinstance(c, (int, bool)):
                 return zint(int(c))
+            if (ty == INT or ty is None) and type(c).__name__ == "EnumMember":
+                return zint(int(c.value))
             if ty == BOOL and isinstance(c, bool):
                 return z3.BoolVal(c)
             if ty == STR and isinstance(c, str):
@@ -495,6 +499,8 @@ class Engine:
             return INT
         if isinstance(v, str):
             return STR
+        if type(v).__name__ == "EnumMember":
+            return INT
         raise Unsupported("type of concrete %r" % (v,))
 
     # ------------------------------------------------------------------ equality
